@@ -96,6 +96,14 @@ void MEDDLY::binary_operation::compute(const dd_edge &ar1,
     if (!res.isAttachedTo(resF)) {
         throw error(error::FOREST_MISMATCH, __FILE__, __LINE__);
     }
+    // The operands are read in the operand forests.  Some operations
+    // (MV_MULTIPLY) are built with their operand forests exchanged,
+    // so accept the operands in either order.
+    if (!( (ar1.isAttachedTo(arg1F) && ar2.isAttachedTo(arg2F)) ||
+           (ar1.isAttachedTo(arg2F) && ar2.isAttachedTo(arg1F)) ))
+    {
+        throw error(error::FOREST_MISMATCH, __FILE__, __LINE__);
+    }
 #ifdef ALLOW_OLD_BINARY_0_17_6
     if (new_style) {
         node_handle resp;
